@@ -1,6 +1,6 @@
 (* Properties/C14.v — C14: a checkpoint restores exactly the state at its log index.
    Only the property theorems (closed by [exact]) and non-vacuity examples. *)
-From ZV Require Import Common.Bytes Ckpt.Consts Ckpt.Model Ckpt.Proofs Ckpt.ProofsName.
+From ZV Require Import Common.Bytes Ckpt.Consts Ckpt.Model Ckpt.Proofs Ckpt.ProofsName Ckpt.ProofsValue Ckpt.ProofsPlan Ckpt.ProofsChain.
 From Coq Require Import Permutation Sorted.
 Open Scope N_scope.
 
@@ -70,6 +70,22 @@ Theorem C14_purge_left : forall keep names latest n,
 Proof. exact purge_left_spec. Qed.
 Print Assumptions C14_purge_left.
 
+(* a checkpoint is only discarded when a strictly newer one stays behind (keepNum >= 1, as every caller passes) *)
+Theorem C14_purge_newer_stays : forall keep names latest v,
+  NoDup names -> (1 <= keep)%nat -> In v (purge_removed keep names latest) ->
+  exists w, In w (glob_dash names) /\ ~ In w (purge_removed keep names latest) /\ key_le v w /\ w <> v.
+Proof. exact purge_newer_stays. Qed.
+Print Assumptions C14_purge_newer_stays.
+
+(* the index clause is false of purgeOldCheckpoint for listings that are not index_monotone
+   (term 1 at index 100, term 2 at index 5, keepNum 1, latest 50: the index-100 checkpoint goes).
+   Replayed on the Go code by corpus/C14/purge-nonmonotone.tsv (model = implementation); not a defect
+   as long as raft produces the names. *)
+Theorem C14_purge_unsafe_without_monotone_refuted :
+  exists keep names latest v, NoDup names /\ In v (purge_removed keep names latest) /\ latest <= index_of_name v.
+Proof. exact purge_unsafe_without_monotone. Qed.
+Print Assumptions C14_purge_unsafe_without_monotone_refuted.
+
 (* ---------- (4) GetLatestCheckpoint ---------- *)
 Theorem C14_latest_checkpoint : forall names skip m c,
   latest_checkpoint names skip m = LSome c ->
@@ -77,6 +93,132 @@ Theorem C14_latest_checkpoint : forall names skip m c,
   (skip = 0%nat -> forall d, In d (glob_dash names) -> m d = true -> key_le d c).
 Proof. exact latest_checkpoint_spec. Qed.
 Print Assumptions C14_latest_checkpoint.
+
+(* ---------- (5) restoreFromPath: the file plan, for ALL data and checkpoint directories ---------- *)
+
+(* Hypotheses: names in a directory are unique, inode numbers below fs_next, the checkpoint's non-LOG
+   entries are regular files, a directory entry names an existing inode. Then the restore succeeds,
+   the data directory reads as the checkpoint on every non-LOG name (nothing written after the
+   checkpoint is visible, nothing of it is missing), sst files are hard links of the checkpoint's
+   files, other files fresh copies, LOG files are left alone, and no inode that existed before is
+   modified — in particular the checkpoint directory reads exactly as before. *)
+Theorem C14_restore_plan_correct : forall fs cur ck,
+  NoDup (dnames cur) -> NoDup (dnames ck) -> store_ok fs ->
+  (forall n j, In (n, j) ck -> is_log n = false -> is_regular fs j = true) ->
+  (forall n j, In (n, j) ck -> exists m, inode_meta (fs_inodes fs) j = Some m) ->
+  exists fs' cur',
+    restore_plan fs cur ck = (fs', cur', true) /\
+    (forall n, is_log n = false -> file_at fs' cur' n = file_at fs ck n) /\
+    (forall n j, In (n, j) ck -> is_log n = false -> is_sst n = true -> dir_lookup cur' n = Some j) /\
+    (forall n j, In (n, j) ck -> is_log n = false -> is_sst n = false ->
+       exists i', dir_lookup cur' n = Some i' /\ fs_next fs <= i') /\
+    (forall n, is_log n = true -> dir_lookup cur' n = dir_lookup cur n) /\
+    extends fs fs' /\ (forall n, file_at fs' ck n = file_at fs ck n).
+Proof. exact restore_plan_correct. Qed.
+Print Assumptions C14_restore_plan_correct.
+
+(* with no hypothesis on the directories at all (also when the restore fails half way): nothing
+   that existed is modified *)
+Theorem C14_restore_never_damages : forall fs cur ck fs' cur' ok,
+  store_ok fs -> restore_plan fs cur ck = (fs', cur', ok) ->
+  extends fs fs' /\ forall n, (exists m, file_at fs ck n = Some m) -> file_at fs' ck n = file_at fs ck n.
+Proof. exact restore_never_damages. Qed.
+Print Assumptions C14_restore_never_damages.
+
+(* later engine activity does not change a checkpoint. Named hypotheses about the engine (an
+   arbitrary function on the live directory): sst_immutable — a file the engine sees only under
+   *.sst names is never rewritten; no_relink — nor given another kind of name. *)
+Theorem C14_checkpoint_survives_engine :
+  forall (engine_step : fsys -> list dirent -> fsys * list dirent),
+  (forall fs d i m, inode_meta (fs_inodes fs) i = Some m -> only_sst_names d i ->
+                    inode_meta (fs_inodes (fst (engine_step fs d))) i = Some m) ->
+  (forall fs d i m, inode_meta (fs_inodes fs) i = Some m -> only_sst_names d i ->
+                    only_sst_names (snd (engine_step fs d)) i) ->
+  forall ck k fs d,
+  (forall n j, In (n, j) ck -> (exists m, inode_meta (fs_inodes fs) j = Some m) /\ only_sst_names d j) ->
+  forall n, file_at (fst (engine_run engine_step k fs d)) ck n = file_at fs ck n.
+Proof. exact checkpoint_survives_engine. Qed.
+Print Assumptions C14_checkpoint_survives_engine.
+
+(* file level end to end (PARTIAL with respect to the property: what a file set decodes to, and
+   that Backup's checkpoint decodes to the content of its instant, are the engine's business and are
+   tied by the correspondence check only): restore, any engine activity, restore again — the engine
+   reads what the checkpoint holds, and the checkpoint still reads the same. *)
+Theorem C14_restore_write_restore_partial :
+  forall (V : Type) (decode : (bytes -> option fmeta) -> V),
+  (forall f g, (forall n, f n = g n) -> decode f = decode g) ->
+  forall (engine_step : fsys -> list dirent -> fsys * list dirent),
+  (forall fs d i m, inode_meta (fs_inodes fs) i = Some m -> only_sst_names d i ->
+                    inode_meta (fs_inodes (fst (engine_step fs d))) i = Some m) ->
+  (forall fs d i m, inode_meta (fs_inodes fs) i = Some m -> only_sst_names d i ->
+                    only_sst_names (snd (engine_step fs d)) i) ->
+  (forall fs d, store_ok fs -> NoDup (dnames d) ->
+                store_ok (fst (engine_step fs d)) /\ NoDup (dnames (snd (engine_step fs d)))) ->
+  forall fs cur ck k,
+  NoDup (dnames cur) -> store_ok fs -> ck_ok fs ck ->
+  (forall n i n', In (n, i) cur -> is_log n = true -> ~ In (n', i) ck) ->
+  exists fs1 d1 fs3 d3,
+    restore_plan fs cur ck = (fs1, d1, true) /\
+    let '(fs2, d2) := engine_run engine_step k fs1 d1 in
+    restore_plan fs2 d2 ck = (fs3, d3, true) /\
+    content V decode fs1 d1 = content V decode fs ck /\ content V decode fs2 ck = content V decode fs ck /\
+    content V decode fs3 d3 = content V decode fs ck /\ content V decode fs3 ck = content V decode fs ck.
+Proof. exact restore_write_restore. Qed.
+Print Assumptions C14_restore_write_restore_partial.
+
+(* ---------- (6) value level, for ALL histories ---------- *)
+
+(* Backup(t,i) when the content is h; any operations while the copy runs; the copy completes; any
+   later history (writes, other backups, restores, purges, ...) that does not start another backup
+   named (t,i): a successful Restore(t,i) yields exactly h. *)
+Theorem C14_backup_restore : forall s0 t i h during dg hf later s3,
+  wf s0 -> vs_pending s0 = None ->
+  Forall not_finish during ->
+  Forall (not_backup_of (enc_name t i)) later ->
+  let s1 := fst (vstep s0 (OBackup t i h)) in
+  let s2 := fst (vstep (run s1 during) (OFinish dg hf)) in
+  vstep (run s2 later) (ORestore t i) = (s3, ROk) ->
+  vs_val s3 = h.
+Proof. exact backup_restore. Qed.
+Print Assumptions C14_backup_restore.
+
+Theorem C14_restore_outcomes : forall s t i s' r,
+  vstep s (ORestore t i) = (s', r) ->
+  (r = ROk /\ exists c, ck_lookup (vs_cks s) (enc_name t i) = Some c /\ vs_val s' = ck_val c) \/
+  (r = RNoBackup /\ s' = s /\ ck_lookup (vs_cks s) (enc_name t i) = None).
+Proof. exact restore_outcomes. Qed.
+Print Assumptions C14_restore_outcomes.
+
+(* restoring never damages the checkpoint: while it exists it restores again to the same content and
+   has the same on-disk digest *)
+Theorem C14_restore_again : forall s t i s1 later s2 c,
+  wf s -> vs_pending s = None ->
+  vstep s (ORestore t i) = (s1, ROk) ->
+  Forall (not_backup_of (enc_name t i)) later ->
+  ck_lookup (vs_cks (run s1 later)) (enc_name t i) = Some c ->
+  vstep (run s1 later) (ORestore t i) = (s2, ROk) ->
+  ck_lookup (vs_cks s) (enc_name t i) = Some c /\ vs_val s2 = vs_val s1.
+Proof. exact restore_again. Qed.
+Print Assumptions C14_restore_again.
+
+(* on another store that fetched the checkpoint directory *)
+Theorem C14_copy_restore : forall a b t i b' c later b2,
+  wf b -> pending_not (enc_name t i) b ->
+  ck_lookup (vs_cks a) (enc_name t i) = Some c ->
+  vcopy a b t i = (b', ROk) ->
+  Forall (not_backup_of (enc_name t i)) later ->
+  vstep (run b' later) (ORestore t i) = (b2, ROk) ->
+  vs_val b2 = ck_val c.
+Proof. exact copy_restore. Qed.
+Print Assumptions C14_copy_restore.
+
+(* what the store's own purge (after a backup, after a restore) discards was selected by
+   purgeOldCheckpoint with keepNum >= 1: theorems (3) apply *)
+Theorem C14_store_purge : forall s n c,
+  ck_lookup (vs_cks s) n = Some c -> wf s -> ck_lookup (vs_cks (vpurge s)) n = None ->
+  In n (purge_removed (keep_num s) (names_of (vs_cks s)) (vs_latest s)) /\ (1 <= keep_num s)%nat.
+Proof. intros s n c H1 H2 H3. split; [exact (vpurge_discards s n c H1 H2 H3)|exact (keep_num_pos s)]. Qed.
+Print Assumptions C14_store_purge.
 
 (* ---------- non-vacuity ---------- *)
 Example C14_ex_name : enc_name 7 100 =
@@ -88,3 +230,20 @@ Example C14_ex_purge :
   purge_removed 1 [enc_name 1 3; enc_name 1 5; enc_name 2 9] 6 = [enc_name 1 3] /\
   purge_left 1 [enc_name 1 3; enc_name 1 5; enc_name 2 9] 6 = [enc_name 1 5; enc_name 2 9].
 Proof. vm_compute. repeat split; reflexivity. Qed.
+
+(* a history: backup at content 11, write 22 while copying, finish, write 33, restore -> 11; restore again -> 11 *)
+Example C14_ex_history :
+  let s := run (vinit 0 5) [OWrite 11; OBackup 1 7 11; OWrite 22; OFinish 99 22; OWrite 33] in
+  vs_val s = 33 /\ vs_val (fst (vstep s (ORestore 1 7))) = 11 /\
+  vs_val (run s [ORestore 1 7; OWrite 44; ORestore 1 7]) = 11 /\ wf s.
+Proof. vm_compute. repeat split; try reflexivity. repeat constructor; intuition. Qed.
+(* a file plan: data dir {000001.sst (same as ck), 000002.sst (stale), LOG, MANIFEST-1}, checkpoint {000001.sst, MANIFEST-2, LOG} *)
+Example C14_ex_plan :
+  let f s t := {| fm_kind := KFile; fm_size := s; fm_head := 0; fm_tail := t |} in
+  let sst1 := [48;48;48;48;48;49;46;115;115;116] in let sst2 := [48;48;48;48;48;50;46;115;115;116] in
+  let fs := {| fs_inodes := [(1, f 10 1); (2, f 20 2); (3, f 5 3); (4, f 7 4); (5, f 8 5); (6, f 9 6)]; fs_next := 10 |} in
+  let cur := [(sst1, 1); (sst2, 2); ([76;79;71], 3); ([77;49], 4)] in
+  let ck := [(sst1, 1); ([76;79;71], 5); ([77;50], 6)] in
+  restore_plan fs cur ck =
+    ({| fs_inodes := (10, f 9 6) :: fs_inodes fs; fs_next := 11 |}, [(sst1, 1); ([76;79;71], 3); ([77;50], 10)], true).
+Proof. vm_compute. reflexivity. Qed.
